@@ -293,7 +293,7 @@ impl Prop for C11 {
         (prop::sample::select(vec![RTy::I64, RTy::I64, RTy::Q, RTy::F3, RTy::PolyH]), prop_oneof![12 => random, 16 => ring, 1 => (any::<u16>(), any::<u16>(), any::<u16>(), any::<u8>(), any::<u32>()).prop_map(|(groups, m_extra, n_extra, per_row, seed)| Shape::Huge { groups, m_extra, n_extra, per_row, seed })], any::<bool>(), cond, prop_oneof![1 => Just(0u8), 1 => Just(1u8), 2 => Just(3u8), 3 => Just(4u8), 3 => Just(5u8)], sched)
             .prop_map(|(rty, shape, cols, cond, threads, sched)| Case { rty, shape, cols, cond, threads, sched }).boxed()
     }
-    fn cases(tier: Tier) -> u32 { tier.pick(12_000, 250_000) }
+    fn cases(tier: Tier) -> u32 { tier.pick(12_000, 100_000) }
     fn shards(_: Tier) -> usize { 4 }
     fn replay_repeats() -> usize { 200 }
     fn run(case: &Case, ctx: &Ctx) -> Outcome { to_outcome(run_case(case, ctx.tier)) }
